@@ -1,5 +1,24 @@
 package main
 
+import (
+	"bytes"
+	"encoding/json"
+	"fmt"
+	"io"
+	"os"
+	"os/exec"
+	"path/filepath"
+	"sort"
+	"strings"
+	"sync"
+)
+
+// Checker self-validation (thorough tier): every diff under /verif/mutants is
+// applied to a scratch copy of the *current* source tree and analysed by this
+// same binary (one process per variant). A must-fire variant has to produce a
+// violation of the named rule; a must-stay-silent variant (behaviour-preserving
+// refactor) none. A failure here means the checker is broken, not /repo.
+
 type selfTestResult struct {
 	Ran     int      `json:"ran"`
 	Failed  int      `json:"failed"`
@@ -7,4 +26,183 @@ type selfTestResult struct {
 	Details []string `json:"details"`
 }
 
-func runSelfTest(repo, property string) selfTestResult { return selfTestResult{} }
+type mutant struct {
+	Name, Property, Expect, Rule, What, Path string
+}
+
+func listMutants(property string) []mutant {
+	dir := filepath.Join(verifDir(), "mutants")
+	ents, _ := os.ReadDir(dir)
+	var out []mutant
+	for _, e := range ents {
+		if !strings.HasSuffix(e.Name(), ".diff") {
+			continue
+		}
+		m := mutant{Path: filepath.Join(dir, e.Name())}
+		b, err := os.ReadFile(m.Path)
+		if err != nil {
+			continue
+		}
+		for _, l := range strings.Split(string(b), "\n") {
+			if !strings.HasPrefix(l, "# ") {
+				break
+			}
+			kv := strings.SplitN(strings.TrimPrefix(l, "# "), ": ", 2)
+			if len(kv) != 2 {
+				continue
+			}
+			switch kv[0] {
+			case "mutant":
+				m.Name = kv[1]
+			case "property":
+				m.Property = kv[1]
+			case "expect":
+				m.Expect = kv[1]
+			case "rule":
+				m.Rule = kv[1]
+			case "what":
+				m.What = kv[1]
+			}
+		}
+		if property == "" || m.Property == property {
+			out = append(out, m)
+		}
+	}
+	sort.Slice(out, func(i, j int) bool { return out[i].Name < out[j].Name })
+	return out
+}
+
+func copyTree(src, dst string) error {
+	return filepath.Walk(src, func(path string, info os.FileInfo, err error) error {
+		if err != nil {
+			return err
+		}
+		rel, _ := filepath.Rel(src, path)
+		if info.IsDir() {
+			if info.Name() == ".git" || info.Name() == ".github" {
+				return filepath.SkipDir
+			}
+			return os.MkdirAll(filepath.Join(dst, rel), 0o755)
+		}
+		if !info.Mode().IsRegular() {
+			return nil
+		}
+		if !(strings.HasSuffix(rel, ".go") || rel == "go.mod" || rel == "go.sum") || strings.HasSuffix(rel, "_test.go") {
+			return nil
+		}
+		in, err := os.Open(path)
+		if err != nil {
+			return err
+		}
+		defer in.Close()
+		out, err := os.Create(filepath.Join(dst, rel))
+		if err != nil {
+			return err
+		}
+		defer out.Close()
+		_, err = io.Copy(out, in)
+		return err
+	})
+}
+
+func runSelfTest(repo, property string) selfTestResult {
+	res := selfTestResult{}
+	muts := listMutants(property)
+	exe, err := os.Executable()
+	if err != nil {
+		res.Failed++
+		res.Details = append(res.Details, "cannot locate own executable: "+err.Error())
+		return res
+	}
+	var mu sync.Mutex
+	sem := make(chan struct{}, 6)
+	var wg sync.WaitGroup
+	for _, m := range muts {
+		m := m
+		wg.Add(1)
+		sem <- struct{}{}
+		go func() {
+			defer wg.Done()
+			defer func() { <-sem }()
+			status, detail := runMutant(exe, repo, m)
+			mu.Lock()
+			defer mu.Unlock()
+			switch status {
+			case "ok":
+				res.Ran++
+			case "skipped":
+				res.Skipped++
+			default:
+				res.Ran++
+				res.Failed++
+			}
+			res.Details = append(res.Details, fmt.Sprintf("%s [%s %s %s]: %s %s", m.Name, m.Property, m.Expect, m.Rule, status, detail))
+		}()
+	}
+	wg.Wait()
+	sort.Strings(res.Details)
+	return res
+}
+
+func runMutant(exe, repo string, m mutant) (status, detail string) {
+	tmp, err := os.MkdirTemp("", "jrpcheck-mut-")
+	if err != nil {
+		return "failed", err.Error()
+	}
+	defer os.RemoveAll(tmp)
+	if err := copyTree(repo, tmp); err != nil {
+		return "failed", "copy: " + err.Error()
+	}
+	diff, _ := os.ReadFile(m.Path)
+	cmd := exec.Command("patch", "-p1", "-s", "--no-backup-if-mismatch", "-d", tmp)
+	cmd.Stdin = bytes.NewReader(diff)
+	if out, err := cmd.CombinedOutput(); err != nil {
+		return "skipped", "diff does not apply to the current tree: " + strings.TrimSpace(string(out))
+	}
+	c2 := exec.Command(exe, "-repo", tmp, "-property", m.Property, "-no-evidence", "-json")
+	c2.Env = append(os.Environ(), "VERIF_DIR="+verifDir())
+	out, _ := c2.Output()
+	// last line is the JSON array
+	lines := strings.Split(strings.TrimSpace(string(out)), "\n")
+	var obls []Obligation
+	if len(lines) == 0 || json.Unmarshal([]byte(lines[len(lines)-1]), &obls) != nil {
+		if strings.Contains(string(out), "CHECKER-ERROR") {
+			return "skipped", "mutated tree does not type-check: " + firstLine(string(out))
+		}
+		return "failed", "no obligations from analysis: " + firstLine(string(out))
+	}
+	var fired []string
+	named := false
+	for _, o := range obls {
+		if o.Status != Discharged {
+			fired = append(fired, o.Rule+"@"+o.Construct)
+			if m.Rule == "" || o.Rule == m.Rule || strings.HasPrefix(o.Rule, m.Rule) {
+				named = true
+			}
+		}
+	}
+	switch m.Expect {
+	case "fire":
+		if named {
+			return "ok", "fired: " + strings.Join(fired, "; ")
+		}
+		if len(fired) > 0 {
+			return "failed", "fired only other rules: " + strings.Join(fired, "; ")
+		}
+		return "failed", "no violation reported"
+	case "silent":
+		if len(fired) == 0 {
+			return "ok", "silent"
+		}
+		return "failed", "false alarm: " + strings.Join(fired, "; ")
+	}
+	return "failed", "bad expect field"
+}
+
+func firstLine(s string) string {
+	s = strings.TrimSpace(s)
+	if i := strings.Index(s, "\n"); i >= 0 {
+		return s[:i]
+	}
+	return s
+}
